@@ -37,6 +37,7 @@ def instances(tier, seed):
     for v, n in SUBSYS:
         out.append({'kind': 'subpair', 'variant': v, 'name': n})
         out.append({'kind': 'subevent', 'name': n, 'variant': v})
+        out.append({'kind': 'subevent_case', 'name': n, 'variant': v})
     for n in range(0, 5 if tier == 'quick' else 7):
         out.append({'kind': 'tagparse', 'n': n, 'wide': None})
     for n in ([4, 5, 6] if tier == 'quick' else [4, 5, 6, 7, 8, 9, 11, 14]):
@@ -51,7 +52,7 @@ def instances(tier, seed):
 
 def bounds(tier):
     return {'quick': 'each of the 31 tag variants and 14 subsystem variants against Other(s), s symbolic ASCII of the name\'s length (==, both orders; cmp both orders; '
-                     'hash feed); every known tag name with symbolic letter case; Tag::try_from on all ASCII strings of length 0..4 and, for lengths 4..6, on all strings that '
+                     'hash feed); every known tag name and every known subsystem name with symbolic letter case; Tag::try_from on all ASCII strings of length 0..4 and, for lengths 4..6, on all strings that '
                      'match some known name case-insensitively in all but one symbolic position; one 2-byte scalar inside strings of length 1,2; Other(s) vs Other(t) and unknown subsystem '
                      'names of length 0..3',
             'thorough': 'as quick with Tag::try_from on all ASCII strings of length 0..6, near-name strings of lengths 4..14, Other/unknown names of length 0..5'}[tier]
@@ -255,10 +256,18 @@ def run_instance(payload):
             if len(res.samples) < 2:
                 res.samples.append({'try_from': model_bytes(ctx.model(), s).decode('latin1'), 'result': repr(r)[:60]})
             res.take_stats(ctx.stats); ctx.stats.__init__()
-    elif kind in ('subevent', 'subevent_unknown'):
+    elif kind in ('subevent', 'subevent_unknown', 'subevent_case'):
         def harness(I):
             if kind == 'subevent':
                 s = list(payload['name'].encode())
+            elif kind == 'subevent_case':
+                # the documented name in any letter case: only the exact (lower-case) spelling is the named subsystem,
+                # every other spelling is an unknown name that has to be preserved verbatim
+                s = []
+                for i, ch in enumerate(payload['name'].encode()):
+                    b = I.ctx.fresh_bv('sc%d' % i, 8)
+                    I.ctx.assume(z3.And(z3.ULT(b, 0x80), ascii_lower(b) == ascii_lower(ch)))
+                    s.append(b)
             else:
                 s = ascii_sym(I, 'u', payload['n'])
                 for b in s:
@@ -287,7 +296,7 @@ def run_instance(payload):
                 viol('the subsystem\'s protocol name differs from the name the server sent (variant %s)' % v.variant, inp())
             if kind == 'subevent' and v.variant != payload['variant']:
                 viol('%s maps to variant %s' % (payload['name'], v.variant), inp())
-            if kind == 'subevent_unknown' and v.variant != 'Other':
+            if kind in ('subevent_unknown', 'subevent_case') and v.variant != 'Other':
                 want = [list(nm.encode()) for vv, nm in SUBSYS if vv == v.variant]
                 if not want or not ctx.must(seq_eq(s, want[0])):
                     viol('unknown name maps to named variant %s' % v.variant, inp())
